@@ -178,6 +178,7 @@ void jo_raw(const char *k, const char *rawjson);
 void jo_fail(const char *key, const char *fmt, ...);   /* records a violation (first kept as key) */
 int  jo_nfail(void);
 void jo_end(void);
+void jo_quiet(int q);    /* suppress value output (failures are still recorded) */
 
 /* ---------- PRNG ---------- */
 typedef struct { uint64_t s; } rng_t;
@@ -279,6 +280,7 @@ int  count_tasks(void);
 int  count_tasks_settled(int expect);
 int  count_fds(void);
 size_t heap_bytes(void);
+int heap_precise(void);   /* 1 when the sanitizer's allocator statistics are available */
 double now_s(void);
 void *xmalloc(size_t n);
 void *xcalloc(size_t n, size_t s);
